@@ -3,7 +3,7 @@ CONSTANTS
   Emit = FALSE
   NsPrefixes = {"p", "q", ""}
   Uris = {"u1", "u2"}
-  Forms = {"p|e", "q|e", "*|e", "|e", "e", "[p|a]", "z|e"}
+  Forms = {"p|e", "q|e", "*|e", "|e", "e", "[p|a]", "z|e", ":not(p|e)", ":not(e)"}
   MaxNs = 3
   MaxSels = 2
   MaxHist = 6
